@@ -7,6 +7,7 @@ import L4.Drv.PP
 import L4.Drv.Tls
 import L4.Drv.Socks5
 import L4.Drv.Throttle
+import L4.Drv.Relay
 open L4 L4.Drv
 
 def dispatch (line : String) : String :=
@@ -20,6 +21,7 @@ def dispatch (line : String) : String :=
   | "hello" :: rest => (doHello.run rest).1
   | "socks5" :: rest => (doSocks5.run rest).1
   | "throttle" :: rest => (doThrottle.run rest).1
+  | "relay" :: rest => (doRelay.run rest).1
   | _ => "bad-op"
 
 partial def loop (h : IO.FS.Stream) (out : IO.FS.Stream) : IO Unit := do
